@@ -22,7 +22,9 @@ RULE = ('integer-valued rasters up to 10x10 (float64/float32/int32/int64, a few 
         '0.1, 1e-50, 1e39); cells taller than wide; max_distance attained exactly (radius 2, Manhattan 3, 3-4-5) and 0 / 0.0; metrics EUCLIDEAN / MANHATTAN (compared cell by cell with '
         'the model: distance key, allocation, bearing; GREAT_CIRCLE too, through the Coq model of the metric, integer degrees); max_distance in '
         '{0, fractions of a cell, 1, sqrt2, 2, sqrt5, ..., multiples of the cell size, inf}. proximity, allocation and '
-        'direction are all called on every case. A case is non-trivial when it has at least one target and one non-target cell.')
+        'direction are all called on every case; plus a Dask-backed stream (non-square 1x3 cells, small chunks, finite max_distance) '
+        'and short in-process call SEQUENCES (same function/metric/max_distance, same-length but different target_values, same and '
+        'different raster), every call checked by the oracle. A case is non-trivial when it has at least one target and one non-target cell.')
 TRUSTED = [
     'float chain -> integer keys: the code compares float32(float32(d)**2) values; the harness maps every squared '
     'distance occurring on the grid to its integer key (dx*dx+dy*dy, resp. (|dx|+|dy|)^2; GREAT_CIRCLE: the float32 distance '
@@ -162,6 +164,54 @@ def _call_pair(case_a, case_b, chunks, name):
                      for v in vals]}
 
 
+def _call_seq(steps):
+    """an in-process SEQUENCE of calls (same worker, in order): [{'case':..., 'only': [...], 'chunks': optional}]"""
+    return {'seq': [_call3(st['case'], st.get('chunks'), st.get('only')) for st in steps]}
+
+
+def _grid(v):
+    v = np.asarray(v)
+    return {'dtype': str(v.dtype), 'v': [[float(x) for x in row] for row in v.tolist()]}
+
+
+def _call_derived(case, chunks, derive, name):
+    """first a Dask call on raster A, then the same call on a raster DERIVED from A through xarray (attrs travel along);
+    NumPy results of both for comparison; A's attrs before/after the call"""
+    import importlib
+    P = importlib.import_module('xrspatial.proximity')
+    md = case['max_distance']
+    md = INF if md in ('inf', None) else float(md)
+    kw = dict(target_values=list(case.get('tv', [])), max_distance=md, distance_metric=case.get('metric', 'EUCLIDEAN'))
+    fn = getattr(P, name)
+    a_d = _build_raster(case, chunks)
+    a_n = _build_raster(case, None)
+    before = repr(sorted(a_d.attrs.items(), key=lambda kv: str(kv[0])))
+    out = {'first': _grid(fn(a_d, **kw).data.compute()), 'first_np': _grid(fn(a_n, **kw).data)}
+    out['attrs_before'] = before
+    out['attrs_after'] = repr(sorted(a_d.attrs.items(), key=lambda kv: str(kv[0])))
+
+    def dv(r):
+        if derive[0] == 'scale':                      # same cells, coordinates divided by k (e.g. m -> km)
+            k = float(derive[1])
+            return r.assign_coords(x=r['x'] / k, y=r['y'] / k)
+        if derive[0] == 'finer':                      # k times finer grid by nearest-neighbour reindex
+            k = int(derive[1])
+            xs = r['x'].values
+            ys = r['y'].values
+            nx = np.linspace(xs[0], xs[-1], (len(xs) - 1) * k + 1)
+            ny = np.linspace(ys[0], ys[-1], (len(ys) - 1) * k + 1)
+            return r.reindex(x=nx, y=ny, method='nearest')
+        raise ValueError(derive)
+    b_d = dv(a_d)
+    if hasattr(b_d.data, 'chunks') and derive[0] == 'finer':
+        b_d = b_d.chunk({'y': max(1, b_d.shape[0] // 2), 'x': max(1, b_d.shape[1] // 3)})
+    b_n = dv(a_n)
+    b_n.attrs = {}
+    out['second'] = _grid(fn(b_d, **kw).data.compute())
+    out['second_np'] = _grid(fn(b_n, **kw).data)
+    return out
+
+
 def worker_main():
     import warnings
     warnings.filterwarnings('ignore')
@@ -175,6 +225,10 @@ def worker_main():
                 res = _call3(req['case'], None, req.get('only'))
             elif req['op'] == 'dask3':
                 res = _call3(req['case'], req['chunks'], req.get('only'))
+            elif req['op'] == 'seq':
+                res = _call_seq(req['steps'])
+            elif req['op'] == 'dask_derived':
+                res = _call_derived(req['case'], req['chunks'], req['derive'], req['name'])
             elif req['op'] == 'dask_pair':
                 res = _call_pair(req['case'], req['case_b'], req['chunks'], req['name'])
             else:
@@ -549,6 +603,67 @@ def surely_within(dist, md):
     return dist == md and float(np.float32(dist) * np.float32(dist)) == dist * dist
 
 
+def oracle_partial(ctx, case, impl, what):
+    """the same statement when only some of the three outputs were computed: every output separately against the brute-force
+    nearest target (value / distance / bearing of SOME target at the reported distance or nearer-than-max), NaN handling"""
+    metric = case.get('metric', 'EUCLIDEAN')
+    md = case['max_distance']
+    md = INF if md in ('inf', None) else float(md)
+    data = cast_data(case)
+    tv = [float(v) for v in case.get('tv', [])]
+    xs = [float(v) for v in case['xs']]
+    ys = [float(v) for v in case['ys']]
+    h, w = len(data), len(data[0])
+    targets = [(r, c) for r in range(h) for c in range(w) if is_target_val(data[r][c], tv)]
+    names = [n for n in ('proximity', 'allocation', 'direction') if n in impl]
+
+    def bad(msg, r, c):
+        ctx.violation('oracle', '%s: %s at cell (%d,%d) [metric %s, max_distance %r, target_values %r]' % (
+            what, msg, r, c, metric, case['max_distance'], case.get('tv')),
+            dict(case, cell=[r, c], **{n: impl[n][r][c] for n in names}))
+        return False
+    for r in range(h):
+        for c in range(w):
+            vals = {n: impl[n][r][c] for n in names}
+            nans = [math.isnan(v) for v in vals.values()]
+            if any(nans) and not all(nans):
+                return bad('NaN in some but not all outputs %r' % vals, r, c)
+            ds = [(true_dist(metric, xs[c], ys[r], xs[tc], ys[tr]), tr, tc) for tr, tc in targets]
+            nearest = min(x[0] for x in ds) if ds else None
+            tgt = (r, c) in targets
+            if all(nans):
+                if targets and md == INF:
+                    return bad('NaN although the raster has a target and max_distance is unbounded', r, c)
+                for dist, tr, tc in ds:
+                    if surely_within(dist, md) and (len(targets) == 1 or tr == r or tc == c):
+                        return bad('target (%d,%d) at distance %r <= max_distance but the cell is NaN' % (tr, tc, dist), r, c)
+                continue
+            if nearest is None or nearest > max(md, f32(md)):
+                return bad('no target within max_distance but the outputs are %r' % vals, r, c)
+            inrange = [(dist, tr, tc) for dist, tr, tc in ds if dist <= max(md, f32(md))]
+            if 'proximity' in vals:
+                p = vals['proximity']
+                if (p == 0.0) != tgt:
+                    return bad('proximity %r on a %s cell' % (p, 'target' if tgt else 'non-target'), r, c)
+                if p < nearest or p > max(md, f32(md)) or not any(dist == p for dist, _, _ in ds):
+                    return bad('proximity %r is not the distance to a target within max_distance (nearest %r)' % (p, nearest), r, c)
+                inrange = [x for x in inrange if x[0] == p]
+            if 'allocation' in vals and not any(same(f32(data[tr][tc]), vals['allocation']) for _, tr, tc in inrange):
+                return bad('allocation %r is not the value of a target at the reported distance / within max_distance'
+                           % vals['allocation'], r, c)
+            if 'direction' in vals:
+                d = vals['direction']
+                if tgt and d != 0.0:
+                    return bad('target cell has direction %r' % d, r, c)
+                if not tgt and not any(abs(compass(xs[c], ys[r], xs[tc], ys[tr]) - d) <= 1e-3 and
+                                       ('allocation' not in vals or same(f32(data[tr][tc]), vals['allocation']))
+                                       for _, tr, tc in inrange):
+                    return bad('direction %r is not the bearing to a target at the reported distance / within max_distance' % d, r, c)
+            if len(targets) == 1 and 'proximity' in vals and vals['proximity'] != nearest:
+                return bad('single target: proximity %r is not the exact distance %r' % (vals['proximity'], nearest), r, c)
+    return True
+
+
 def oracle(ctx, case, impl, what='numpy', exact_small=True):
     """checks the C06 statement on the implementation's three outputs; returns True when clean"""
     metric = case.get('metric', 'EUCLIDEAN')
@@ -562,11 +677,14 @@ def oracle(ctx, case, impl, what='numpy', exact_small=True):
     ys = [float(v) for v in case['ys']]
     h = len(data)
     w = len(data[0]) if h else 0
-    for name in ('proximity', 'allocation', 'direction'):
+    wanted = case.get('only') or ('proximity', 'allocation', 'direction')
+    for name in wanted:
         if name not in impl:
             ctx.violation('oracle', '%s: %s raised or is missing: %s' % (what, name, case.get('_err', {}).get(name)),
                           dict(case, function=name))
             return False
+    if len(wanted) < 3:
+        return oracle_partial(ctx, case, impl, what)
     P, A, D = impl['proximity'], impl['allocation'], impl['direction']
     targets = [(r, c) for r in range(h) for c in range(w) if is_target_val(data[r][c], tv)]
 
@@ -919,6 +1037,48 @@ def boundary_cases(rng):
     return out
 
 
+def dask_stream_cases(rng):
+    """Dask-backed rasters (the property does not restrict the backend): non-square cells, several chunkings, a finite
+    max_distance below the diagonal, targets in neighbouring chunks; checked with the same oracle"""
+    out = []
+    for i in range(3):
+        cx, cy = [(1, 3), (3, 1), (1, 3)][i]
+        h, w = rng.randint(5, 8), rng.randint(7, 10)
+        if cy == 1:
+            h, w = w, h
+        g = gen_layout(rng, h, w, 'multi')
+        md = 3.0 if i < 2 else 4.5
+        c = base_case(g, layout='dask-nonsquare', xs=[cx * j for j in range(w)],
+                      ys=[cy * j for j in range(h)][::-1] if i == 2 else [cy * j for j in range(h)],
+                      max_distance=md, xkind='dask', ykind='dask')
+        # small chunks along the axis with the small cells (that is where the halo must be deep)
+        small = lambda n: [2] * (n // 2) + ([1] if n % 2 else [])
+        c['chunks'] = [small(h) if cy == 1 else [h - h // 2, h // 2], small(w) if cx == 1 else [w - w // 2, w // 2]]
+        c['only'] = [['proximity', 'allocation'], ['proximity', 'direction'], ['allocation', 'direction']][i]
+        out.append(c)
+    return out
+
+
+def sequence_cases(rng):
+    """short in-process sequences: the same function / metric / max_distance with same-length but DIFFERENT target_values,
+    on the same raster and then on another one - every call is checked (a result must not depend on earlier calls)"""
+    out = []
+    for i in range(2):
+        h, w = rng.randint(3, 6), rng.randint(3, 6)
+        g = [[rng.choice([0, 0, 1, 2, 3, 4]) for _ in range(w)] for _ in range(h)]
+        g[0][0], g[h - 1][w - 1] = 1, 4                    # both values occur
+        g2 = [[rng.choice([0, 0, 0, 2, 5]) for _ in range(w)] for _ in range(h)]
+        g2[rng.randrange(h)][rng.randrange(w)] = 2
+        md = 'inf' if i == 0 else 2.0
+        metric = 'EUCLIDEAN' if i == 0 else 'MANHATTAN'
+        fn = ['proximity', 'allocation'][i]
+        steps = [base_case(g, layout='sequence', tv=[1.0], mode='target_values', max_distance=md, metric=metric),
+                 base_case(g, layout='sequence', tv=[4.0], mode='target_values', max_distance=md, metric=metric),
+                 base_case(g2, layout='sequence', tv=[2.0], mode='target_values', max_distance=md, metric=metric)]
+        out.append([dict(case=c, only=[fn]) for c in steps])
+    return out
+
+
 def canon_impl(res):
     """worker result -> ({name: grid}, {name: error})"""
     grids, errs = {}, {}
@@ -986,14 +1146,39 @@ def process_results(ctx, cases, results, what='numpy'):
             compare_model(ctx, case, grids, mo, what)
 
 
+def check_extra_streams(ctx, pool, rounds=1):
+    """Dask-backed non-square rasters and in-process call sequences, oracle only"""
+    reqs, meta = [], []
+    for _ in range(rounds):
+        for c in dask_stream_cases(ctx.rng):
+            reqs.append({'op': 'dask3', 'case': c, 'chunks': c['chunks'], 'only': c['only']})
+            meta.append(('dask', [c]))
+        for steps in sequence_cases(ctx.rng):
+            reqs.append({'op': 'seq', 'steps': steps})
+            meta.append(('seq', [dict(st['case'], only=st['only']) for st in steps]))
+    res = pool.map(reqs)
+    for (kind, cs), r in zip(meta, res):
+        rs = [r] if kind == 'dask' else r.get('seq', [])
+        if 'fatal' in r or len(rs) != len(cs):
+            ctx.violation('oracle', '%s stream: worker failed: %s' % (kind, r.get('fatal')), cs[0])
+            continue
+        for k, (c, one) in enumerate(zip(cs, rs)):
+            ctx.case(c, nontrivial=nontrivial(c))
+            ctx.count('%s-stream/%s' % (kind, c['metric']))
+            grids, errs = canon_impl(one)
+            case_e = dict(c, _err=errs, sequence_position=k, sequence=cs) if kind == 'seq' else dict(c, _err=errs)
+            oracle(ctx, case_e, grids, 'dask-backed' if kind == 'dask' else 'call %d of an in-process sequence' % (k + 1))
+
+
 def run(ctx):
     if ctx.quick():
-        cases = build_cases(ctx, 27, 6, 4)
+        cases = build_cases(ctx, 21, 5, 4)
     else:
         cases = build_cases(ctx, 420, 120, 60)
     pool = ImplPool()
     try:
         results = pool.map([{'op': 'numpy3', 'case': c} for c in cases])
+        check_extra_streams(ctx, pool, 1 if ctx.quick() else 12)
     finally:
         pool.close()
     process_results(ctx, cases, results)
@@ -1009,6 +1194,7 @@ def search(ctx):
         pool = ImplPool()
         try:
             results = pool.map([{'op': 'numpy3', 'case': c} for c in cases])
+            check_extra_streams(ctx, pool, 4)
         finally:
             pool.close()
         process_results(ctx, cases, results)
@@ -1018,12 +1204,27 @@ def search(ctx):
 
 def replay_case(ctx, case):
     case = {k: v for k, v in case.items() if k not in ('cell', 'proximity', 'allocation', 'direction', 'nearest',
-                                                       'function', 'impl', 'model', '_err')}
+                                                       'function', 'impl', 'model', '_err', 'sequence_position')}
     for row in case['data']:
         for i, v in enumerate(row):
             if isinstance(v, str):
                 row[i] = float(v)
     if isinstance(case.get('max_distance'), str) and case['max_distance'] != 'inf':
         case['max_distance'] = float(case['max_distance'])
+    if case.get('sequence'):
+        seq = case['sequence']
+        rs = _call_seq([dict(case=c, only=c.get('only')) for c in seq])['seq']
+        for k, (c, one) in enumerate(zip(seq, rs)):
+            ctx.case(c)
+            grids, errs = canon_impl(one)
+            oracle(ctx, dict(c, _err=errs, sequence_position=k, sequence=seq), grids,
+                   'call %d of an in-process sequence' % (k + 1))
+        return
+    if case.get('chunks'):
+        res = _call3(case, case['chunks'], case.get('only'))
+        ctx.case(case)
+        grids, errs = canon_impl(res)
+        oracle(ctx, dict(case, _err=errs), grids, 'dask-backed')
+        return
     res = _call3(case)
     process_results(ctx, [case], [res])
